@@ -27,23 +27,8 @@ theorem dedup_blocks_forever (k nx : Nat) (c : Cl) (e : Ev) (r : Rec)
     rw [ih]
     exact dedup_blocks 3 nx c e r h hs
 
-/-- when is an event "already handled" past the dedup check, in terms of the client's own state -/
-def handledInner (c : Cl) (e : Ev) : Bool :=
-  match e.kind with
-  | .commit _ _ =>
-    -- an applied or superseded commit: it belongs to another epoch and does not beat what was applied
-    epochOf e.path != epochOf c.g.path && !isBetter c (epochOf e.path) e
-  | .leave => e.sender != c.id && c.g.consumed.contains e.cipher
-  | .app _ _ _ =>
-    (e.sender != c.id && c.g.consumed.contains e.cipher) ||
-    (e.sender == c.id && (match getRec c e.n with
-                          | some r => r.state == 1
-                          | none => false))
-
-def handled (c : Cl) (e : Ev) : Bool :=
-  (match getRec c e.n with
-   | some r => r.state == 3 || r.state == 4
-   | none => false) || (routes c e && handledInner c e)
+-- `handledInner` / `handled` (when is an event "already handled", in terms of the client's own state) are defined in
+-- Proofs/Client.lean so that Proofs/Insert.lean can speak about them
 
 theorem step1_handled (retry : Cl → Option (Cl × Res)) (nx : Nat) (c : Cl) (e : Ev)
     (hs : Synced c.g) (hg : routes c e = true) (hh : handledInner c e = true) :
